@@ -21,6 +21,12 @@ Theorem seg_dependency_sound : forall g, wf_b g = true ->
   (has_up (gB g) (hi_ g) s = true -> isdone (st q (s - gB g)) = true).
 Proof. exact accepted_started_after_deps. Qed.
 
+(* ... and transitively: every in-range segment that is "earlier" (row <=, band <=) than a started one has finished *)
+Theorem seg_dependency_transitive : forall g, wf_b g = true ->
+  forall q s t, reach (gR g) (gB g) (lo_ g) (hi_ g) q -> inS (gR g) (gB g) (lo_ g) (hi_ g) s -> started (st q s) = true ->
+  inS (gR g) (gB g) (lo_ g) (hi_ g) t -> earlier_segment g t s -> finished (st q t) = true.
+Proof. intros g Hg q s t Hq Hs Hst Ht [Hne [Hr Hb]]. exact (accepted_started_after_all_earlier g Hg q s t Hq Hs Hst Ht Hne Hr Hb). Qed.
+
 (* completion: a reachable state in which no step is possible has every segment done (no deadlock) *)
 Theorem seg_protocol_complete : forall g, wf_b g = true ->
   forall q, reach (gR g) (gB g) (lo_ g) (hi_ g) q -> pend q = [] ->
